@@ -210,7 +210,11 @@ type Diff struct {
 }
 
 func (d *Diff) Error() string {
-	return fmt.Sprintf("state mismatch on key %q (%s): want %s, got %s", d.Key, d.Part, d.Want.Canon(), d.Got.Canon())
+	ex := ""
+	if d.Extra != "" {
+		ex = " [" + d.Extra + "]"
+	}
+	return fmt.Sprintf("state mismatch on key %q (%s)%s: want %s, got %s", d.Key, d.Part, ex, d.Want.Canon(), d.Got.Canon())
 }
 
 // Canon renders a key state compactly.
